@@ -36,7 +36,7 @@ BOUNDED = [
                  'ml_pipeline_engine/dag/retrying.py::', 'ml_pipeline_engine/context/dag.py::', 'ml_pipeline_engine/node/node.py::',
                  'ml_pipeline_engine/chart.py::', 'ml_pipeline_engine/dag/graph.py::'),
          script='bounded/engine.py',
-         props=('C01', 'C02', 'C03', 'C04', 'C05', 'C07', 'C09', 'C10', 'C11', 'C12', 'C13', 'C14', 'C19')),
+         props=('C01', 'C02', 'C03', 'C04', 'C05', 'C06', 'C07', 'C09', 'C10', 'C11', 'C12', 'C13', 'C14', 'C19')),
 ]
 VENV_PY = '/venv/bin/python'
 
@@ -217,6 +217,25 @@ def check_property(prop, tier='quick', seed=0):
                         continue
                     violations[i] = (v, path, True)
 
+    # thorough tier: CPython cross-check of the storage contracts (run-time contract checking on the real methods)
+    conformance = None
+    if tier == 'thorough' and any(c.path == 'ml_pipeline_engine/dag/storage.py' for c in contracts) \
+            and not os.environ.get('PYVC_NO_EVIDENCE'):
+        import subprocess
+        from pyvc import repo as repo_mod
+        os.makedirs(out_dir, exist_ok=True)
+        jpath = os.path.join(out_dir, 'conformance_storage.json')
+        try:
+            subprocess.run(['python3-vt', os.path.join(VERIF, 'tools', 'conformance.py'), '30', str(seed), '--json', jpath],
+                           capture_output=True, text=True, cwd=VERIF, timeout=1800, env=dict(os.environ, PYVC_REPO=repo_mod.REPO_ROOT))
+            conformance = json.load(open(jpath))
+        except Exception as e:   # noqa: BLE001
+            conformance = dict(error=f'{type(e).__name__}: {e}')
+        for d in (conformance.get('disagreements') or [])[:3]:
+            violations.append((dict(name=f"conformance:{d['function']}: {d['failed']}", backend='real code',
+                                    reason='the contract is false on a real execution of the method (input in the replay file)', info=None),
+                               jpath, True))
+
     # a listed open finding whose obligation is now discharged: report it (stale entry), not an error
     stale = [k for name, k in open_known.items() if name not in {v['name'] for _k, v in known_hits}
              and name in {v['name'] for v in all_verdicts if v['status'] == 'discharged'}]
@@ -276,6 +295,11 @@ def check_property(prop, tier='quick', seed=0):
             dropped_by_extraction=DROPPED,
             repo_digest=repo.digest.hexdigest(),
             seeded_self_test=self_test,
+            conformance_storage=(dict(executions=conformance.get('executions'), disagreements=len(conformance.get('disagreements') or []),
+                                      error=conformance.get('error'),
+                                      note='bounded CPython cross-check: random small states and arguments run on the real storage '
+                                           'methods, the proved contract clauses evaluated on the observed pre/post states')
+                                 if conformance else None),
             bounded_stand_ins=[dict(script=b.get('script'), bound=b.get('bound'), cases=b.get('cases'), ok=b.get('ok'),
                                     stands_in_for=b.get('stands_in_for'), failures=(b.get('failures') or [])[:5],
                                     note='bounded: real code run on a stated finite family of inputs; never counted as proved')
